@@ -1,4 +1,13 @@
-"""C04 — detect_sources is exact connected-component labelling above threshold."""
+"""C04 — detect_sources is exact connected-component labelling above threshold.
+
+K: every case runs the real detect_sources; Coq evaluates check_case_path = C04_Model.check_case (one-step model:
+array, labels 1..N, areas, tight slices) && the staged code-path model C04_PathModel.detect_path (scipy numbering,
+find_objects before removal, removal through cutout views, label-map array, PRE-SEEDED labels/slices, areas counted
+through the cached slices) && the fresh derivation from the array; check_scipy ties the modelled scipy.ndimage.label /
+find_objects to scipy itself.
+V: plain-Python oracles on the implementation's output: components by flood fill (oracle), attributes recomputed from
+segm.data by loops and from fresh SegmentationImages queried in two orders (attrs_mismatch), None iff warning,
+SourceFinder(deblend=False), detect_threshold formula."""
 import itertools
 import warnings
 
@@ -7,7 +16,8 @@ import numpy as np
 from .core import coq, Some, Raw
 
 PID = 'C04'
-FILES = ['lib/Cases.v', 'lib/Conn.v', 'C04_Model.v', 'C04_Proofs.v', 'C04_Properties.v']
+FILES = ['lib/Cases.v', 'lib/Conn.v', 'C04_Model.v', 'C04_Proofs.v', 'C04_PathModel.v', 'C04_PathProofs.v',
+         'C04_Properties.v']
 INF = 10 ** 9
 
 
@@ -137,10 +147,95 @@ def fresh_agrees(segm):
     """Property clause: labels/slices/areas agree with a fresh SegmentationImage."""
     from photutils.segmentation import SegmentationImage
     fresh = SegmentationImage(np.array(segm.data))
-    ok = (np.array_equal(np.asarray(segm.labels), np.asarray(fresh.labels))
-          and list(segm.slices) == list(fresh.slices)
-          and np.array_equal(np.asarray(segm.areas), np.asarray(fresh.areas)))
+    try:
+        ok = (np.array_equal(np.asarray(segm.labels), np.asarray(fresh.labels))
+              and list(segm.slices) == list(fresh.slices)
+              and np.array_equal(np.asarray(segm.areas), np.asarray(fresh.areas)))
+    except Exception:       # e.g. cached labels and slices of different lengths: `areas` raises
+        ok = False
     return ok
+
+
+def plain_attrs(arr):
+    """labels / areas / tight slices of a label array, recomputed with plain Python loops (no
+    SegmentationImage, no scipy, no numpy reductions): the meaning of the three attributes."""
+    arr = np.asarray(arr)
+    ny, nx = arr.shape
+    box = {}
+    cnt = {}
+    for y in range(ny):
+        for x in range(nx):
+            v = int(arr[y, x])
+            if v == 0:
+                continue
+            cnt[v] = cnt.get(v, 0) + 1
+            b = box.get(v)
+            box[v] = (y, y + 1, x, x + 1) if b is None else (min(b[0], y), max(b[1], y + 1), min(b[2], x), max(b[3], x + 1))
+    labels = sorted(cnt)
+    return labels, [cnt[v] for v in labels], [box[v] for v in labels]
+
+
+def attrs_of(segm):
+    """Every label-derived public attribute of a SegmentationImage, canonicalised to plain Python."""
+    sl = [(s[0].start, s[0].stop, s[1].start, s[1].stop) for s in segm.slices]
+    bb = [(b.iymin, b.iymax, b.ixmin, b.ixmax) for b in segm.bbox]
+    return {'labels': [int(v) for v in segm.labels], 'areas': [int(v) for v in segm.areas], 'slices': sl, 'bbox': bb,
+            'nlabels': int(segm.nlabels), 'max_label': int(segm.max_label),
+            'is_consecutive': bool(segm.is_consecutive), 'missing_labels': [int(v) for v in segm.missing_labels],
+            'background_area': int(segm.background_area),
+            'segments': [(int(g.label), (g.slices[0].start, g.slices[0].stop, g.slices[1].start, g.slices[1].stop),
+                          int(g.area)) for g in segm.segments],
+            'get_areas': [int(v) for v in segm.get_areas(list(segm.labels))] if segm.nlabels else [],
+            'get_indices': [int(v) for v in segm.get_indices(list(segm.labels))] if segm.nlabels else []}
+
+
+def attrs_mismatch(segm):
+    """Names of the attributes of the detector's (pre-seeded) SegmentationImage that differ from (a) their plain
+    Python meaning recomputed from segm.data and (b) a fresh SegmentationImage of a copy of the same array, queried in
+    two different orders (labels first / slices first: the two branches of the `labels` lazyproperty)."""
+    from photutils.segmentation import SegmentationImage
+    data = np.array(segm.data)
+    labels, areas, slices = plain_attrs(data)
+    n = len(labels)
+    mx = max(labels) if labels else 0
+    want = {'labels': labels, 'areas': areas, 'slices': slices, 'bbox': slices, 'nlabels': n, 'max_label': mx,
+            'is_consecutive': n > 0 and labels == list(range(1, n + 1)),
+            'missing_labels': [v for v in range(1, mx + 1) if v not in set(labels)],
+            'background_area': int(data.size - sum(areas)),
+            'segments': list(zip(labels, slices, areas)), 'get_areas': areas, 'get_indices': list(range(n))}
+    try:
+        got = attrs_of(segm)
+    except Exception as e:  # inconsistent caches (e.g. labels and slices of different lengths) make attributes raise
+        return [f'exception:{type(e).__name__}: {str(e)[:120]}']
+    bad = ['plain:' + k for k in want if got[k] != want[k]]
+    if not np.array_equal(np.asarray(segm.data), data) or np.asarray(segm.data).shape != data.shape:
+        bad.append('data-changed-by-attribute-access')
+    f1 = SegmentationImage(data.copy())
+    _ = f1.labels
+    f2 = SegmentationImage(data.copy())
+    _ = f2.slices          # _raw_slices first: `labels` then takes its other branch
+    for tag, f in (('fresh:', f1), ('fresh-slices-first:', f2)):
+        g = attrs_of(f)
+        bad += [tag + k for k in want if got[k] != g[k]]
+        if np.asarray(segm.labels).dtype != np.asarray(f.labels).dtype:
+            bad.append(tag + 'labels-dtype')
+    return sorted(set(bad))
+
+
+def scipy_to_coq(case):
+    """The two scipy calls of _detect_sources on this case's foreground, as a Coq term for check_scipy."""
+    from scipy.ndimage import find_objects
+    from scipy.ndimage import label as ndi_label
+    from photutils.segmentation.utils import _make_binary_structure
+    d = case['data']
+    with np.errstate(invalid='ignore'):
+        fg = d > case['thr']
+    if case['mask'] is not None:
+        fg = fg & ~case['mask']
+    img, k = ndi_label(fg, structure=_make_binary_structure(2, case['conn']))
+    sl = [(s[0].start, s[0].stop, s[1].start, s[1].stop) for s in find_objects(img)]
+    return coq((d.shape[0], d.shape[1], case['conn'] == 8, [bool(v) for v in fg.ravel()],
+                [int(v) for v in img.ravel()], int(k), sl))
 
 
 def to_coq(case, segm):
@@ -279,8 +374,14 @@ def run(ctx):
                        'and bounding-box areas; thorough adds all binary images up '
                        'to 3x4/4x3; non-trivial = at least one pixel above threshold; distinct = distinct '
                        '(data, threshold, mask, conn, npixels)')
-    ctx.assumptions += ['scipy.ndimage.label / find_objects are not modelled separately: the whole of '
-                        'detect_sources (including them) is compared with the proved model on every case']
+    ctx.assumptions += ['scipy.ndimage.label / find_objects are modelled (components numbered in raster order of their '
+                        'first pixel; tight boxes) and that model is compared with scipy itself on every non-empty foreground '
+                        '(check_scipy) in addition to the end-to-end comparison of detect_sources with the proved models '
+                        '(check_case_path = one-step model + staged code-path model + fresh derivation)',
+                        'SegmentationImage attributes other than labels/slices/areas (bbox, nlabels, max_label, '
+                        'is_consecutive, missing_labels, background_area, segments, get_areas, get_indices) are compared '
+                        'with their plain-Python meaning and with a fresh SegmentationImage only (no Coq model here; C05 '
+                        'models them)']
     ctx.cov['partial_clauses'] = ['detect_threshold is checked numerically against background + nsigma*error (given or '
                                   'sigma-clipped mean/std estimates, all image dtypes); no Coq model of it']
     n = 400 if ctx.tier == 'quick' else 3000
@@ -293,8 +394,20 @@ def run(ctx):
         cases += ex
     impl = []
     coq_cases = []
+    scipy_cases = []
+    ran = []
     for c in cases:
-        segm, warned = run_impl(c)
+        try:
+            segm, warned = run_impl(c)
+        except Exception as e:      # valid input (2-D data, positive npixels, matching shapes): must not raise
+            ctx.violation('detect_sources:exception', f'detect_sources raised {type(e).__name__}: {str(e)[:200]}',
+                          describe(c))
+            continue
+        if segm is not None and any(b.startswith('exception:') for b in attrs_mismatch(segm)):
+            ctx.violation('detect_sources:preseeded-attrs', 'an attribute of the returned SegmentationImage raises: '
+                          + ', '.join(attrs_mismatch(segm)), describe(c))
+            continue
+        ran.append(c)
         impl.append(segm)
         ctx.stat('kinds', c['kind'])
         ctx.stat('result', 'None' if segm is None else 'segments')
@@ -307,19 +420,47 @@ def run(ctx):
         if segm is not None and not fresh_agrees(segm):
             ctx.violation('detect_sources:preseeded-attrs', 'labels/slices/areas differ from a fresh SegmentationImage',
                           describe(c))
+        if segm is not None:
+            bad_attrs = attrs_mismatch(segm)
+            ctx.stat('attrs', 'checked')
+            ctx.stat('attrs', 'removed+relabelled' if len(components(c)) != segm.nlabels else 'nothing-removed')
+            if bad_attrs:
+                ctx.violation('detect_sources:preseeded-attrs', 'attributes of the returned SegmentationImage differ from '
+                              'their meaning recomputed from its array / from a fresh SegmentationImage: '
+                              + ', '.join(bad_attrs), describe(c))
         coq_cases.append(to_coq(c, segm))
+        if nontrivial:
+            scipy_cases.append(scipy_to_coq(c))
+    cases = ran
     ctx.sample({'case': describe(cases[1]), 'impl_labels': None if impl[1] is None else impl[1].data.tolist()})
-    bad = ctx.coq_eval_cases(['C04_Model'], 'check_case', coq_cases, case_type='case')
+    # check_case_path = the one-step model's check_case AND the staged code-path model (pre-seeded labels / slices,
+    # areas counted through them) AND the fresh derivation from the model's array, against the implementation
+    bad = ctx.coq_eval_cases(['C04_Model', 'C04_PathModel'], 'check_case_path', coq_cases, case_type='case')
     ctx.stat('coq', 'disagreements', len(bad))
+    # the modelled behaviour of scipy.ndimage.label / find_objects (numbering in raster order of first pixel, tight
+    # boxes) against scipy itself on every non-empty foreground
+    bad_sp = ctx.coq_eval_cases(['C04_Model', 'C04_PathModel'], 'check_scipy', scipy_cases, case_type='scipy_case',
+                                tag='scipy')
+    ctx.stat('coq', 'scipy_cases', len(scipy_cases))
+    ctx.stat('coq', 'scipy_disagreements', len(bad_sp))
+    for i in bad_sp[:5]:
+        ctx.violation('correspondence:C04_PathModel.check_scipy', 'scipy.ndimage.label / find_objects differ from the '
+                      'modelled numbering / boxes', {'term': scipy_cases[i][:2000]}, found_input=False)
     for i in bad[:20]:
         c = cases[i]
         holds = oracle(c, impl[i])
         detail = {'case': describe(c), 'impl': None if impl[i] is None else impl[i].data.tolist(),
-                  'model': ctx.coq_eval_term(['C04_Model'], f'model_out {coq_cases[i]}') if len(bad) < 50 else None,
+                  'model': ctx.coq_eval_term(['C04_Model', 'C04_PathModel'], f'model_out_path {coq_cases[i]}')
+                  if len(bad) < 50 else None,
+                  'impl_attrs': None if impl[i] is None else {k: v for k, v in attrs_of(impl[i]).items()
+                                                              if k in ('labels', 'areas', 'slices')},
                   'cmd': 'bin/check C04 --replay <this file>'}
         if not holds:
             ctx.violation('detect_sources:components', 'segmentation differs from the connected components above '
                           'threshold with >= npixels pixels labelled 1..N in raster order', detail)
+        elif impl[i] is not None and attrs_mismatch(impl[i]):
+            ctx.violation('detect_sources:preseeded-attrs', 'labels/slices/areas of the returned SegmentationImage differ '
+                          'from the model and from their meaning on the array: ' + ', '.join(attrs_mismatch(impl[i])), detail)
         else:
             ctx.violation('correspondence:C04_Model.check_case', 'model and implementation disagree on derived '
                           'attributes', detail, found_input=False)
@@ -377,17 +518,28 @@ def run(ctx):
     ctx.stat('generator', 'detect_threshold_cases', nthr)
     # SourceFinder(deblend=False) equals detect_sources
     from photutils.segmentation import SourceFinder, detect_sources
-    for c in cases[:60]:
+    for c in cases[:60] + cases[n:n + 40] + cases[n + n // 2:n + n // 2 + 20]:
         if c['mask'] is not None and c['mask'].all():
             continue
         with warnings.catch_warnings():
             warnings.simplefilter('ignore')
-            a = SourceFinder(npixels=c['npix'], connectivity=c['conn'], deblend=False, progress_bar=False)(
-                c['data'], c['thr'], mask=c['mask'])
-            b, _ = run_impl(c)
-        same = (a is None and b is None) or (a is not None and b is not None and np.array_equal(a.data, b.data))
+            try:
+                a = SourceFinder(npixels=c['npix'], connectivity=c['conn'], deblend=False, progress_bar=False)(
+                    c['data'], c['thr'], mask=c['mask'])
+                b, _ = run_impl(c)
+            except Exception as e:
+                ctx.violation('SourceFinder:exception', f'SourceFinder(deblend=False) raised {type(e).__name__}: '
+                              f'{str(e)[:200]}', describe(c))
+                continue
+        same = (a is None and b is None) or (a is not None and b is not None and np.array_equal(a.data, b.data)
+                                               and attrs_of(a) == attrs_of(b))
         if not same:
             ctx.violation('SourceFinder:deblend-false', 'SourceFinder(deblend=False) != detect_sources', describe(c))
+        if a is not None and attrs_mismatch(a):
+            ctx.violation('SourceFinder:preseeded-attrs', 'attributes of the SegmentationImage returned by '
+                          'SourceFinder(deblend=False) differ from their meaning on its array: '
+                          + ', '.join(attrs_mismatch(a)), describe(c))
+        ctx.stat('generator', 'sourcefinder_cases')
 
 
 def replay(obj):
@@ -401,8 +553,17 @@ def replay(obj):
                 dtype=c.get('dtype'),
                 mask=None if c['mask'] is None else np.array(c['mask'], bool),
                 conn=c['connectivity'], npix=c['npixels'])
-    segm, _ = run_impl(case)
+    try:
+        segm, _ = run_impl(case)
+    except Exception as e:
+        print(f'detect_sources raised {type(e).__name__}: {e}')
+        print('property FAILS on this input')
+        return 1
     ok = oracle(case, segm)
+    bad_attrs = attrs_mismatch(segm) if segm is not None else []
+    if bad_attrs:
+        print('attributes differing from their meaning on the array / a fresh SegmentationImage:', bad_attrs)
+        ok = False
     print('impl:', None if segm is None else segm.data.tolist())
     print('property holds on this input' if ok else 'property FAILS on this input')
     return 0 if ok else 1
